@@ -563,4 +563,45 @@ def extra_variants():
     V.append(Variant("H2 inner loop in a helper", E, replace_func(T, INNER_HELPER), None))
     V.append(Variant("deep alpha-rename trust_region_minimize", E, alpha_rename(T, suffix="_dr", deep=True), None))
     V.append(Variant("deep alpha-rename nonlinear_equation_solve", E, alpha_rename("nonlinear_equation_solve", suffix="_dr", deep=True), None))
+    # ---------- sibling implementations of the objective interface (classes derived from Objective): what they evaluate must follow the current parameters
+    R5 = "D1/T5-objective-uses-current-parameters"
+    SO = "ScaledObjective.__init__"
+    CO = "optimism/ConstrainedObjective.py"
+    WRAP = "        def scaled_objective(xBar, p):\n            x = invScaling * xBar\n            return objective_func(x, p)\n"
+    V.append(Variant("SO1 scaled wrapper: parameter renamed, body binds the constructor's p (seeded m6)", O,
+                     sub_in_func(SO, "def scaled_objective(xBar, p):", "def scaled_objective(xBar, params):"), R5))
+    V.append(Variant("SO2 scaled wrapper as a lambda that ignores its parameter argument", O,
+                     sub_in_func(SO, "        super().__init__(scaled_objective,", "        super().__init__(lambda xBar, q: objective_func(invScaling * xBar, p),"), R5))
+    V.append(Variant("SO3 scaled wrapper freezes the constructor's p in a default argument", O,
+                     sub_in_func(SO, WRAP, "        def scaled_objective(xBar, q, frozen=p):\n            x = invScaling * xBar\n            return objective_func(x, frozen)\n"), R5))
+    V.append(Variant("SO4 scaled wrapper through partial, constructor's p bound as the parameters", O, chain(
+        sub("class PrecondStrategy:", "def _scaled(objective_func, invScaling, p, xBar, q):\n    return objective_func(invScaling * xBar, p)\n\n\nclass PrecondStrategy:"),
+        sub_in_func(SO, "        super().__init__(scaled_objective,", "        super().__init__(partial(_scaled, objective_func, invScaling, p),")), R5))
+    V.append(Variant("SO5 Objective.hess_vec closure takes q but differentiates grad_x(., p) of the constructor", O,
+                     sub_in_func("Objective.__init__", "self.hess_vec   = jit(lambda x, p, vx:", "self.hess_vec   = jit(lambda x, q, vx:"), R5))
+    V.append(Variant("SO6 ScaledObjective overrides gradient with the parameters kept at construction", O, chain(
+        sub_in_func(SO, "        self.scaling = scaling\n", "        self.scaling = scaling\n        self.pInitial = p\n"),
+        sub("    def get_value(self, x):\n", "    def gradient(self, x):\n        return self.grad_x(x, self.pInitial)\n\n\n    def get_value(self, x):\n")), R5))
+    V.append(Variant("SO7 ConstrainedObjective.jit_hess_vec closure takes q but differentiates at the constructor's p", CO,
+                     sub_in_func("ConstrainedObjective.__init__", "self.jit_hess_vec = jit(lambda x, p, l, k, vx:", "self.jit_hess_vec = jit(lambda x, q, l, k, vx:"), R5))
+    V.append(Variant("SO8 ConstrainedObjective stores the gradient of another function than value evaluates", CO,
+                     sub_in_func("ConstrainedObjective.__init__", "        grad_x = grad(f,0)\n", "        grad_x = grad(objective_func,0)\n"), R5))
+    V.append(Variant("SO9 scaled wrapper reads self.p inside the jit-compiled function instead of using its parameter argument", O,
+                     sub_in_func(SO, WRAP, "        def scaled_objective(xBar, q):\n            x = invScaling * xBar\n            return objective_func(x, self.p)\n"), R5))
+    V.append(Variant("SOP7 Objective.value reads the parameters through a helper method at call time", O, chain(
+        sub("    def value(self, x):\n        return self.objective(x, self.p)", "    def current_parameters(self):\n        return self.p\n\n    def value(self, x):\n        return self.objective(x, self.current_parameters())"),), None))
+    V.append(Variant("SOP1 scaled wrapper with consistently renamed parameters, no temporary", O,
+                     sub_in_func(SO, WRAP, "        def scaled_objective(y, q):\n            return objective_func(invScaling * y, q)\n"), None))
+    V.append(Variant("SOP2 scaled wrapper as a lambda that passes its parameter argument on", O,
+                     sub_in_func(SO, "        super().__init__(scaled_objective,", "        super().__init__(lambda xBar, q: objective_func(invScaling * xBar, q),"), None))
+    V.append(Variant("SOP3 scaled wrapper through partial of a module-level function", O, chain(
+        sub("class PrecondStrategy:", "def _scaled(objective_func, invScaling, xBar, q):\n    return objective_func(invScaling * xBar, q)\n\n\nclass PrecondStrategy:"),
+        sub_in_func(SO, "        super().__init__(scaled_objective,", "        super().__init__(partial(_scaled, objective_func, invScaling),")), None))
+    V.append(Variant("SOP4 ScaledObjective overrides value / gradient with explicit calls under self.p", O,
+                     sub("    def get_value(self, x):\n", "    def value(self, x):\n        params = self.p\n        return self.objective(x, params)\n\n\n    def gradient(self, x):\n        return self.grad_x(x, self.p)\n\n\n    def get_value(self, x):\n"), None))
+    V.append(Variant("SOP5 base constructor called explicitly instead of through super()", O,
+                     sub_in_func(SO, "        super().__init__(scaled_objective,", "        Objective.__init__(self, scaled_objective,"), None))
+    V.append(Variant("SOP6 ConstrainedObjective.jit_hess_vec with renamed closure parameters", CO,
+                     sub_in_func("ConstrainedObjective.__init__", "self.jit_hess_vec = jit(lambda x, p, l, k, vx:\n                                jvp(lambda z: grad_x(z,p,l,k), (x,), (vx,))[1])",
+                                 "self.jit_hess_vec = jit(lambda y, q, l, k, vy:\n                                jvp(lambda z: grad_x(z,q,l,k), (y,), (vy,))[1])"), None))
     return V
